@@ -265,7 +265,7 @@ PROPS['C03'] = {
 }
 PROPS['C11'] = {
     'level': 'exploration',
-    'vx': [{'unit': 'builder'}],
+    'vx': [{'unit': 'builder', 'functions': ['add_attribute', 'add_raw_attribute', 'add_message_integrity', 'add_fingerprint', 'lemma_first_among', 'lemma_among4', 'lemma_among_sub', 'lemma_holds_push']}],
     'kx': ['k11_builder_queries_small'],
     'bx': ['c11'],
     'technique': 'Verus contracts on the four guard functions of the real MessageBuilder (add_attribute, add_raw_attribute, add_message_integrity, add_fingerprint) over an abstract type list, with the two iterator-adaptor query helpers and the two sealing workers under assumed contracts; bounded stand-in (exhaustive operation sequences over the sealing alphabet + random programs on the real MessageBuilder against the ordering rules of the statement) for everything assumed',
